@@ -26,6 +26,7 @@ import (
 	"os"
 	"os/exec"
 	"path/filepath"
+	"regexp"
 	"runtime"
 	"runtime/pprof"
 	"sort"
@@ -50,6 +51,7 @@ type dev struct {
 type kase struct {
 	Seq     int     `json:"seq"`
 	Route   string  `json:"route"`
+	Variant string  `json:"variant,omitempty"` // which well-formed request of the route
 	Ident   string  `json:"identity"`
 	Loggers string  `json:"loggers"` // "server" | "all"
 	Devs    []dev   `json:"deviations"`
@@ -78,6 +80,8 @@ type result struct {
 var caseLimit = 600 * time.Second
 
 var trace = os.Getenv("C40_TRACE") != ""
+
+var scratchRE = regexp.MustCompile(`/[^ "']*vcheck-[A-Za-z0-9]+-[0-9]+/w[0-9]+`)
 
 func init() {
 	if d, err := time.ParseDuration(os.Getenv("C40_LIMIT")); err == nil && d > 0 {
@@ -193,7 +197,7 @@ func runCase(w *world, srv *server, k *kase) result {
 		res.Status[pass] = a.Status
 		res.Reached[pass] = a.Obs.Reached
 
-		if a.Status >= 500 && a.Obs.Panic == "" && res.Note5xx == "" {
+		if (a.Status >= 500 || (a.Status >= 400 && len(k.Devs) == 0)) && a.Obs.Panic == "" && res.Note5xx == "" {
 			if i := bytes.Index(a.Raw, []byte("\r\n\r\n")); i >= 0 {
 				res.Note5xx = shorten(strings.Join(strings.Fields(string(a.Raw[i+4:])), " "), 300)
 			}
@@ -742,21 +746,23 @@ func main() {
 // ---- verdict bookkeeping -------------------------------------------------------------------
 
 type verdict struct {
-	mu        sync.Mutex
-	r         *report.R
-	plan      *plan
-	hits      []hit
-	statuses  map[string]int64
-	perRoute  map[string]*routeStats
-	notParsed int64
-	repaired  map[string]int64
-	shutdowns map[string]int64
-	hung      []string
-	slowest   []slow
-	cands     []cand
-	fivexx    map[string]map[string]int
-	done      int
-	began     time.Time
+	mu          sync.Mutex
+	r           *report.R
+	plan        *plan
+	hits        []hit
+	statuses    map[string]int64
+	perRoute    map[string]*routeStats
+	notParsed   int64
+	repaired    map[string]int64
+	shutdowns   map[string]int64
+	hung        []string
+	slowest     []slow
+	cands       []cand
+	fivexx      map[string]map[string]int
+	baseStatus  map[string]map[string]string
+	baseRefusal map[string]string
+	done        int
+	began       time.Time
 }
 
 type cand struct {
@@ -777,7 +783,7 @@ type routeStats struct {
 }
 
 func newVerdict(r *report.R, p *plan) *verdict {
-	return &verdict{began: time.Now(), r: r, plan: p, statuses: map[string]int64{}, perRoute: map[string]*routeStats{}, repaired: map[string]int64{}, shutdowns: map[string]int64{}, fivexx: map[string]map[string]int{}}
+	return &verdict{began: time.Now(), r: r, plan: p, statuses: map[string]int64{}, perRoute: map[string]*routeStats{}, repaired: map[string]int64{}, shutdowns: map[string]int64{}, fivexx: map[string]map[string]int{}, baseStatus: map[string]map[string]string{}, baseRefusal: map[string]string{}}
 }
 
 func (v *verdict) add(o outcome) {
@@ -855,7 +861,22 @@ func (v *verdict) add(o outcome) {
 		v.repaired[x]++
 	}
 
-	if res.Note5xx != "" {
+	if len(k.Devs) == 0 && k.Loggers == "server" {
+		key := k.Route
+		if k.Variant != "" {
+			key += " [" + k.Variant + "]"
+		}
+
+		if v.baseStatus[key] == nil {
+			v.baseStatus[key] = map[string]string{}
+		}
+
+		v.baseStatus[key][k.Ident] = fmt.Sprintf("%d,%d", res.Status[0], res.Status[1])
+	}
+
+	if res.Note5xx != "" && res.Status[0] < 500 && res.Status[1] < 500 {
+		v.baseRefusal[k.Route+" ["+k.Variant+"] as "+k.Ident] = res.Note5xx
+	} else if res.Note5xx != "" {
 		if v.fivexx[k.Route] == nil {
 			v.fivexx[k.Route] = map[string]int{}
 		}
@@ -865,7 +886,9 @@ func (v *verdict) add(o outcome) {
 			msg = msg[i:]
 		}
 
-		if len(v.fivexx[k.Route]) < 6 || v.fivexx[k.Route][msg] > 0 {
+		msg = scratchRE.ReplaceAllString(msg, "<scratch>")
+
+		if len(v.fivexx[k.Route]) < 5000 || v.fivexx[k.Route][msg] > 0 {
 			v.fivexx[k.Route][msg]++
 		}
 	}
@@ -987,7 +1010,30 @@ func (v *verdict) finish() {
 	v.r.Set("world_repairs", v.repaired)
 	v.r.Set("cases_that_stopped_the_process", v.shutdowns)
 	v.r.Set("panicking_cases", len(v.hits))
-	v.r.Set("own_5xx_answers_of_handlers", v.fivexx)
+	// (the six alphabetically first messages per route)
+	shown := map[string]map[string]int{}
+
+	for route, msgs := range v.fivexx {
+		keys := make([]string, 0, len(msgs))
+		for m := range msgs {
+			keys = append(keys, m)
+		}
+
+		sort.Strings(keys)
+
+		if len(keys) > 6 {
+			keys = keys[:6]
+		}
+
+		shown[route] = map[string]int{}
+		for _, m := range keys {
+			shown[route][m] = msgs[m]
+		}
+	}
+
+	v.r.Set("own_5xx_answers_of_handlers", shown)
+	v.r.Set("status_of_the_well_formed_requests_cold_warm", v.baseStatus)
+	v.r.Set("refusals_of_well_formed_requests", v.baseRefusal)
 
 	sl := []string{}
 	for _, s := range v.slowest {
